@@ -30,6 +30,7 @@
 
 // the harness projects the private fields (entries, free_list, data_list) onto the specification's
 // variables; all standard headers are already included above
+#include <SQuIDS/detail/Verif.h>   // also when Cache.h carries no hooks yet: the check then reports that, instead of a compile error
 #define private public
 #include <SQuIDS/detail/Cache.h>
 #undef private
